@@ -1,4 +1,5 @@
 #!/bin/bash
+shopt -s extglob
 # usage: selftest/run_all.sh [pattern]   - runs every mutator selftest/patches/<prop>-*.sh against its property's quick check
 # (scratch worktree only) and records the outcomes in selftest/results.json
 cd /verif
@@ -9,7 +10,8 @@ for P in selftest/patches/${1:-*}.sh; do
   SIG=$(echo "$OUT" | grep "sig=" | head -1 | sed 's/ :: .*//' | sed 's/^ *//')
   echo "$LINE $SIG"
   python3 - "$B" "$PROP" "$LINE" "$SIG" <<'PY'
-import json,sys,os
+import json,sys,os,fcntl
+lk=open('/verif/.work/selftest.lock','w'); fcntl.flock(lk,fcntl.LOCK_EX)
 b,prop,line,sig=sys.argv[1:5]
 p='/verif/selftest/results.json'
 r=json.load(open(p)) if os.path.exists(p) else {}
